@@ -7,7 +7,7 @@ use dashu_base::{
 use dashu_int::IBig;
 
 use crate::{
-    error::{assert_finite, assert_limited_precision},
+    error::{assert_finite, assert_limited_precision, panic_log_nonpositive},
     fbig::FBig,
     repr::{Context, Repr, Word},
     round::{Round, Rounded},
@@ -73,6 +73,10 @@ impl<R: Round, const B: Word> FBig<R, B> {
     /// assert_eq!(a.ln(), DBig::from_str("0.2103")?);
     /// # Ok::<(), ParseError>(())
     /// ```
+    ///
+    /// # Panics
+    ///
+    /// Panics if the number is zero or negative, or if the precision is unlimited.
     #[inline]
     pub fn ln(&self) -> Self {
         self.context.ln(&self.repr).value()
@@ -90,6 +94,10 @@ impl<R: Round, const B: Word> FBig<R, B> {
     /// assert_eq!(a.ln_1p(), DBig::from_str("0.11636")?);
     /// # Ok::<(), ParseError>(())
     /// ```
+    ///
+    /// # Panics
+    ///
+    /// Panics if the number is less than or equal to -1, or if the precision is unlimited.
     #[inline]
     pub fn ln_1p(&self) -> Self {
         self.context.ln_1p(&self.repr).value()
@@ -196,6 +204,10 @@ impl<R: Round> Context<R> {
     /// assert_eq!(context.ln(&a.repr()), Inexact(DBig::from_str("0.21")?, NoOp));
     /// # Ok::<(), ParseError>(())
     /// ```
+    ///
+    /// # Panics
+    ///
+    /// Panics if the number is zero or negative, or if the precision is unlimited.
     #[inline]
     pub fn ln<const B: Word>(&self, x: &Repr<B>) -> Rounded<FBig<R, B>> {
         self.ln_internal(x, false)
@@ -217,6 +229,10 @@ impl<R: Round> Context<R> {
     /// assert_eq!(context.ln_1p(&a.repr()), Inexact(DBig::from_str("0.12")?, AddOne));
     /// # Ok::<(), ParseError>(())
     /// ```
+    ///
+    /// # Panics
+    ///
+    /// Panics if the number is less than or equal to -1, or if the precision is unlimited.
     #[inline]
     pub fn ln_1p<const B: Word>(&self, x: &Repr<B>) -> Rounded<FBig<R, B>> {
         self.ln_internal(x, true)
@@ -225,6 +241,17 @@ impl<R: Round> Context<R> {
     fn ln_internal<const B: Word>(&self, x: &Repr<B>, one_plus: bool) -> Rounded<FBig<R, B>> {
         assert_finite(x);
         assert_limited_precision(self.precision);
+
+        // the logarithm is only defined for positive arguments (x > 0 for ln, x > -1 for ln_1p),
+        // the series below would never terminate otherwise
+        let nonpositive = if one_plus {
+            *x <= Repr::neg_one()
+        } else {
+            x.is_zero() || x.sign() == Sign::Negative
+        };
+        if nonpositive {
+            panic_log_nonpositive()
+        }
 
         if (one_plus && x.is_zero()) || (!one_plus && x.is_one()) {
             return Exact(FBig::ZERO);
